@@ -141,8 +141,23 @@ def run_selftest(prop=None, jobs=16, verbose=False):
         f"(declined with analysis-error {shape}), whole-tree rewrites ({', '.join(auto_names)}) silent {auto_silent}/{n_auto}, "
         f"stale {len(stale)}/{len(entries)}, wall {time.time() - t0:.1f}s"
     )
+    global LAST_SUMMARY
+    LAST_SUMMARY = {
+        "mutants": n_mut,
+        "mutants_detected": det,
+        "refactor_variants": n_ref,
+        "refactor_variants_silent": silent,
+        "whole_tree_rewrites": auto_names,
+        "whole_tree_rewrite_runs": n_auto,
+        "whole_tree_rewrite_runs_silent": auto_silent,
+        "stale": len(stale),
+        "failures": fails,
+    }
     if applicable < 0.5 * len(entries):
         # the tree has drifted away from the corpus: do not pretend the self-test ran
         print(f"SELFTEST-STALE more than half of the corpus no longer applies to this tree ({len(stale)}/{len(entries)})")
         return 0
     return 1 if fails else 0
+
+
+LAST_SUMMARY = None
